@@ -229,13 +229,14 @@ class PushSelection(Unit):
         pre = ctx.snapshot(c)
         qm0, rm0 = pre.f["q_msgs"], pre.f["_record_messages"]
         tick0 = pre.f["_tick"]
+        roles_ps = aw.Roles()
 
         def inv(ex_, k):
             env = ex_.frame.env
-            g = env["grouped"]
+            g = roles_ps.get(env, "grouped", aw.is_empty_list)
             qm, rm = c.f["q_msgs"], c.f["_record_messages"]
             j = z3.Int("j!ps")
-            parts = [qm.lo == qm0.lo + k, qm.hi == qm0.hi, rm.lo == rm0.lo, rm.hi == rm0.hi + k, aw.same(env["tick"], tick0)]
+            parts = [qm.lo == qm0.lo + k, qm.hi == qm0.hi, rm.lo == rm0.lo, rm.hi == rm0.hi + k, aw.same(roles_ps.get(env, "tick", aw.is_term(tick0)), tick0)]
             parts += [aw.same(qm.arrs[p], qm0.arrs[p]) for p in qm0.arrs]
             parts.append(kept(rm, rm0))
             M = lambda p, t: z3.Select(qm0.arrs[p], qm0.lo + t)
@@ -293,6 +294,30 @@ class PushSelection(Unit):
 
 
 # =========================================================================================== push_ts_max
+def running_max_spec(c, qi, total):
+    """OPTIONAL invariant, used only if push_ts_max computes its maximum with an explicit loop (the pinned code uses max([0.0] + [...]) and has no loop):
+    after k iterations the accumulator is the running maximum max(0, recv_0 .. recv_{k-1}) of the arrivals at the head of q_ts_input; if the loop
+    pops as it goes, exactly k entries have left the queue."""
+    roles = aw.Roles()
+    variant = {}
+    lo0 = qi.lo
+    recv = lambda t: z3.Select(qi.arrs[(1,)], lo0 + t)
+    is_zero_num = lambda v: (isinstance(v, (int, float)) and not isinstance(v, bool) and v == 0) or (is_sym(v) and z3.is_rational_value(z3.simplify(toz(v))) and z3.simplify(toz(v)).as_fraction() == 0)
+
+    def inv(ex_, k):
+        acc = toz(roles.get(ex_.frame.env, "ts_max", is_zero_num, exclude=("num_msgs",)))
+        if acc.sort() == INT:
+            acc = z3.ToReal(acc)
+        j, wit = z3.Int("j!rm"), z3.Int("w!rm")
+        q = c.f["q_ts_input"]
+        if "inside" not in variant:        # fixed at loop entry: nothing popped yet => the loop pops as it goes; otherwise everything was popped before the loop
+            variant["inside"] = z3.eq(z3.simplify(toz(q.lo)), z3.simplify(toz(lo0)))
+        pops_inside = (q.lo == lo0 + k) if variant["inside"] else (q.lo == lo0 + total)
+        unchanged = z3.And(q.hi == qi.hi, *[toz(aw.same(q.arrs[p_], qi.arrs[p_])) for p_ in qi.arrs])      # only heads leave the queue; contents are never rewritten
+        return z3.And(acc >= 0, z3.ForAll([j], z3.Implies(z3.And(0 <= j, j < k), acc >= recv(j))), z3.Or(acc == 0, z3.Exists([wit], z3.And(0 <= wit, wit < k, acc == recv(wit)))), pops_inside, unchanged)
+    return LoopSpec(inv, modifies=["self.q_ts_input"])
+
+
 class PushTsMax(Unit):
     name = "push_ts_max"
     target = aw.AS + "::_AsyncConnectionWrapper.push_ts_max"
@@ -311,6 +336,7 @@ class PushTsMax(Unit):
         qe, qi = pre.f["q_expected_ts_max"], pre.f["q_ts_input"]
         j = z3.Int("j!tm")
         ctx.require(z3.ForAll([j], z3.Implies(z3.And(qe.lo <= j, j < qe.hi), z3.Select(qe.arrs[()], j) >= 0)))  # counts queued by push_expected_blocking are >= 0 (its contract)
+        ex.loops[("push_ts_max", 1)] = running_max_spec(c, qi, qe.leaf((), 0))
         ctx.call(self_obj=c)
         finish(ctx, c, pre, aw.frame_push_ts_max(c))
         subs = [e for e in ex.ev if e.kind == "submit"]
@@ -367,11 +393,12 @@ class PushExpectedNonblocking(Unit):
         S = lambda idx: z3.Select(qi.arrs[(0,)], qi.lo + idx)
         T = lambda idx: z3.Select(qi.arrs[(1,)], qi.lo + idx)
         stop = lambda idx: stop_cond(c, S(idx), T(idx), t, cfg["jitter"])
+        roles = aw.Roles()
 
         def inv(ex_, k):
             env = ex_.frame.env
             j = z3.Int("j!en")
-            return z3.And(toz(env["num_msgs"]) == k, toz(env["ts_step"]) == t, z3.ForAll([j], z3.Implies(z3.And(0 <= j, j < k), z3.Not(stop(j)))),
+            return z3.And(toz(roles.get(env, "num_msgs", aw.is_zero)) == k, toz(roles.get(env, "ts_step", aw.is_term(t))) == t, z3.ForAll([j], z3.Implies(z3.And(0 <= j, j < k), z3.Not(stop(j)))),
                           aw.same(c.f["q_ts_input"], qi))
 
         ex.loops[("push_expected_nonblocking", 1)] = LoopSpec(inv)
@@ -462,17 +489,19 @@ class PushExpectedBlocking(Unit):
         i0 = z3.Int("i0")  # ghost: the start index chosen by the code, captured at loop entry
         j = z3.Int("j!pb")
         holder = {}
+        roles = aw.Roles()
 
         def inv(ex_, k):
             env = ex_.frame.env
-            i, t, tt = env["i"], env["t"], env["text_t"]
+            # the count of qualifying producer ticks so far is kept either as a list of their times (len) or as an integer counter
+            i, t, tt = roles.get(env, "i"), roles.get(env, "t"), roles.get(env, "text_t", lambda v: aw.is_empty_list(v) or aw.is_zero(v), exclude=("i", "flag", "N_node"))
             if "i0" not in holder:
                 holder["i0"] = i  # value at loop entry (init obligation is evaluated first)
                 # definition of the ghost counter relative to the start index (conservative extension)
                 ex_.assume(CNT(toz(i)) == 0)
                 ex_.assume(z3.ForAll([j], z3.Implies(j >= toz(i), CNT(j + 1) == CNT(j) + z3.If(qual(j), 1, 0)), patterns=[CNT(j + 1)]))
             s = toz(holder["i0"])
-            n = len(tt) if isinstance(tt, list) else tt.length()
+            n = len(tt) if isinstance(tt, list) else (tt.length() if hasattr(tt, "length") else toz(tt))
             return z3.And(toz(i) >= s, toz(t) == T(toz(i)), toz(n) == CNT(toz(i)), z3.ForAll([j], z3.Implies(z3.And(s <= j, j < toz(i)), T(j) <= t_high)),
                           aw.same(c.f["q_ts_next_step"], Seq(pre.f["q_ts_next_step"].schema, pre.f["q_ts_next_step"].arrs, pre.f["q_ts_next_step"].lo + 1, pre.f["q_ts_next_step"].hi)))
 
